@@ -101,6 +101,25 @@ Theorem C01_resume_sound : forall st0 acts m1 s,
 Proof. exact resume_sound. Qed.
 Print Assumptions C01_resume_sound.
 
+(** ONE RECORD PER PEER.  Whenever a responder handler (any message sequence) leaves a new operational session
+    [s], EVERY record of the resumption cache for (s's fabric, s's peer node) afterwards carries s's CATs: a full
+    handshake supersedes every earlier record of that peer, a resumption only rotates its id.  A later resumption
+    can therefore only hand out the CATs of the certificate validated LAST for that peer. *)
+Theorem C01_session_supersedes_records : forall st fr ms st' rs' out s,
+  node_wf st -> resp_run st RIdle fr ms = (st', rs', out) ->
+  n_sessions st' = n_sessions st ++ [s] -> s_reserved s = false ->
+  forall x, In x (n_cache st') -> r_fab x = s_fab s -> r_peer x = s_peer s -> r_cats x = s_cats s.
+Proof. exact session_supersedes_records. Qed.
+Print Assumptions C01_session_supersedes_records.
+
+Theorem C01_initiator_session_supersedes_records : forall st fr fab peer ms st' out s,
+  node_wf st ->
+  init_run (io_node (init_start st fr fab peer)) (io_state (init_start st fr fab peer)) ms = (st', IDone true, out) ->
+  n_sessions st' = n_sessions st ++ [s] ->
+  forall x, In x (n_cache st') -> r_fab x = s_fab s -> r_peer x = s_peer s -> r_cats x = s_cats s.
+Proof. exact initiator_session_supersedes_records. Qed.
+Print Assumptions C01_initiator_session_supersedes_records.
+
 (** TRANSCRIPT BINDING, PARTIAL.  Initiator run on node [a] (sent [m1], received [m2']) and responder run
     on node [b] (received [m1'], [m3']) both completed.  HYPOTHESES (unforgeability, not yet derived from
     an attacker-knowledge closure): [tbe2_from_responder]: the TBE2 ciphertext the initiator accepted is
